@@ -22,7 +22,8 @@ RULE = ('(1) Every path of the C16 choice trees: mass of the fragments added by 
         'sampler, construct a sampler over other fragments with the same names, sample an older sampler}; every construct+sample unit must return the fresh-process reference molecule '
         'for (s, w), and the references must agree across PYTHONHASHSEED values. Non-trivial = >=1 growth step.')
 ASSUMPTIONS = c16.ASSUMPTIONS + [
-    'atomic masses are taken from pysmiles.PTE (trusted); hydrogens of a fragment mass = R-valence hydrogens of the isolated fragment',
+    'atomic masses are taken from pysmiles.PTE (trusted); hydrogens of a fragment mass = R-valence hydrogens of the isolated fragment; '
+    'aromatic atoms other than carbon carry only their written hydrogens (OpenSMILES)',
     'hash seeds / RNG seeds are covered for the enumerated finite sets only',
 ]
 EXPLANATION = 'exhaustive RNG choice-tree exploration plus explicit-state history exploration on the real sampler'
@@ -41,6 +42,12 @@ def ref_mass(tmpl):
         key = (el, int(d.get('charge', 0)))
         if key not in VAL:
             return None
+        if d.get('aromatic') and el != 'C':
+            # OpenSMILES: an aromatic atom other than carbon has no implicit hydrogen, only the written one ([nH])
+            a = str(d.get('_atom_str', ''))
+            nh = pysmiles.smiles_helper.parse_atom(a).get('hcount', 0) if a.startswith('[') else 0
+            m += nh * pysmiles.PTE['H']['AtomicMass']
+            continue
         s = sum(e.get('order', 1) for _, _, e in tmpl.edges(n, data=True))
         h = ref_hcount(key[0], key[1], s)
         if h is None:
@@ -183,7 +190,7 @@ def seed_machine(config, hashseeds):
                 try:
                     m = c16.make_sampler(c, seed=op[1]).sample(op[2], start_fragment=c['start'])
                     outs.append((op, c16.dump(m)))
-                except (IndexError, ValueError, OSError, KeyError) as e:
+                except (IndexError, ValueError, OSError, KeyError, SyntaxError) as e:
                     outs.append((op, 'raises:' + type(e).__name__))
             elif op[0] == 'F':
                 real_random.random()
@@ -192,7 +199,7 @@ def seed_machine(config, hashseeds):
             elif op[0] == 'O':
                 try:
                     older.sample(targets[0], start_fragment=c['start'])
-                except (IndexError, ValueError, OSError, KeyError):
+                except (IndexError, ValueError, OSError, KeyError, SyntaxError):
                     pass
             elif op[0] == 'M':
                 c16.make_sampler(alien, seed=5)
